@@ -50,5 +50,6 @@ let handle = function
       let s = Hashtbl.find schemas name in
       (match walk_root (buf_of_hex hex) (zi addr) s fuel (parse_root root) (v = "s") with
        | WOk -> "OK" | WBad (p, w, a) -> Printf.sprintf "BAD %s %s %s" (string_of_z p) (string_of_z w) (string_of_z a) | WFuel -> "FUEL")
+  | ["restricts"; a; b] -> if restricts (Hashtbl.find schemas a) (Hashtbl.find schemas b) then "YES" else "NO"
   | l -> "BAD " ^ String.concat " " l
 let () = main_loop handle
